@@ -15,5 +15,5 @@ one() {
   echo "$s | own=$own | alarms: ${hit:-none} | rules: ${rules:-}"
 }
 export -f one; export VERIF IDS
-ls -d ${1:-seeded/C*-*m[0-9]} | xargs -P 6 -I{} bash -c 'one {}' | sort > seeded/MATRIX.txt
+ls -d ${1:-seeded/C*-*m[0-9]} | xargs -P ${PAR:-6} -I{} bash -c 'one {}' | sort > seeded/MATRIX.txt
 cat seeded/MATRIX.txt
